@@ -46,8 +46,9 @@ ASSUMPTIONS = [
     "applies them to single element polygons, never through the network's R-tree or findPointIn)",
     "distances within 1e-7 m of 0 or of `tolerance`, and the band 0.99..1.0 x tolerance (the "
     "tolerant pass tests a 64-gon inscribed in the tolerance circle), are not judged",
-    "children may stick out of parents by 2 x tolerance + 0.01 m (two independent Douglas-Peucker "
-    "simplifications within `tolerance` each, plus the parser's fixed 0.01 m / 1e-6 m buffers)",
+    "children may stick out of parents by 0.5 m, the figure of the construction-time assertions in "
+    "roads.py (a bound derived from `tolerance` is refuted by Town04: road sections are made "
+    "disjoint, lane sections are not); aggregate regions: tolerance + 0.01 m as asserted by Network",
     "the sign of a lane's direction is anchored independently of its centreline by the "
     "LinearElement docstring (left edge on the left, right edge on the right, both running "
     "forward), judged on 40-60 % chords of lanes and lane sections only when both edges agree",
